@@ -7,6 +7,7 @@ import (
 	"encoding/binary"
 	"fmt"
 	"sort"
+	"strings"
 
 	"github.com/google/reftable"
 	. "verifharness/evid"
@@ -284,10 +285,26 @@ type TableSpec struct {
 type Bulk struct {
 	N    int `json:"n"`
 	Kind int `json:"kind"` // KDel or KSym
+	// Lens, if set, selects the big-record shape instead: one record per entry, a deletion
+	// for 0 and otherwise a symref whose target has that many bytes (records comparable in
+	// size to a large block: blocks that end early with kilobytes of padding).
+	Lens []int `json:"lens,omitempty"`
 }
 
 // Expand generates the records: names r0000000, r0000001, ...
 func (b Bulk) Expand(min uint64) []Ref {
+	if len(b.Lens) > 0 {
+		var out []Ref
+		for i, l := range b.Lens {
+			r := Ref{Name: Str(fmt.Sprintf("r%07d", i)), Idx: min, Kind: KDel}
+			if l > 0 {
+				r.Kind = KSym
+				r.Target = Str(strings.Repeat("refs/heads/target-", l/18+1)[:l])
+			}
+			out = append(out, r)
+		}
+		return out
+	}
 	out := make([]Ref, 0, b.N)
 	for i := 0; i < b.N; i++ {
 		r := Ref{Name: Str(fmt.Sprintf("r%07d", i)), Idx: min, Kind: b.Kind}
